@@ -104,3 +104,19 @@ fire("C16", "aggregator state written by fill_func closure", FF, "        def _f
 silent("C16", "twin: views built in a loop", CC, "                    regions = [region[tuple(flattened_slice)] for region in regions]\n", "                    views = []\n                    for region in regions:\n                        views.append(region[tuple(flattened_slice)])\n                    regions = views\n")
 silent("C16", "twin: rename task argument", XC, "        def fill_one_cube(nested_coords):", "        def fill_one_cube(nested_coords, _unused=None):")
 silent("C16", "twin: starmap-free local alias of the task", CC, "                pool.map(fill_one_cube, self.product())", "                task = fill_one_cube\n                pool.map(task, self.product())")
+
+# ---------------------------------------------------------------- C20
+fire("C20", "ccube: swallow the interrupt in the task", CC, "            if self.check_interrupt is not None:\n                self.check_interrupt()\n", "            if self.check_interrupt is not None:\n                try:\n                    self.check_interrupt()\n                except Exception:\n                    return\n", "R-C20-b")
+fire("C20", "xcube: callback once per calculate, not per task", XC, "        def fill_one_cube(nested_coords):\n            if self.check_interrupt is not None:\n                self.check_interrupt()\n", "        if self.check_interrupt is not None:\n            self.check_interrupt()\n\n        def fill_one_cube(nested_coords):\n", "R-C20-a")
+fire("C20", "ccube: callback moved into the walk loop", CC, "                for coords, rowids in dims[0].items():\n                    self._walk(remaining_dims, base_coords + coords, rowids, funcs)", "                for coords, rowids in dims[0].items():\n                    if self.check_interrupt is not None:\n                        self.check_interrupt()\n                    self._walk(remaining_dims, base_coords + coords, rowids, funcs)", "R-C20-a")
+V.append({"prop": "C20", "name": "xcube: callback after the regions were filled", "expect": "fire", "rule": "R-C20-a", "edits": [
+    {"file": XC, "old": "            if self.check_interrupt is not None:\n                self.check_interrupt()\n\n            slices1d = [", "new": "            slices1d = ["},
+    {"file": XC, "old": "                if bucket[\"start\"] is None:\n                    bucket[\"start\"] = start\n", "new": "                if bucket[\"start\"] is None:\n                    bucket[\"start\"] = start\n            if self.check_interrupt is not None:\n                self.check_interrupt()\n"},
+]})
+fire("C20", "ccube: pool.map_async (worker exception lost)", CC, "pool.map(fill_one_cube, self.product())", "pool.map_async(fill_one_cube, self.product())", "R-C20-c")
+fire("C20", "xcube: contextlib.suppress around dispatch", XC, "            for nested_coords in self.product:\n                fill_one_cube(nested_coords)", "            import contextlib\n            with contextlib.suppress(Exception):\n                for nested_coords in self.product:\n                    fill_one_cube(nested_coords)", "R-C20-b")
+fire("C20", "ccube: results kept on self and reused", CC, "        results = [func.get_initial_regions(self) for func in funcs]\n", "        results = [func.get_initial_regions(self) for func in funcs]\n        self._last_results = results\n", "R-C20-d")
+fire("C20", "shortcut swallows errors", XC, "        return self.calculate(\n            [xfuncs.xfunc_count(weights, N, ignore_missing, return_missing_as)]\n        )[0]", "        try:\n            return self.calculate(\n                [xfuncs.xfunc_count(weights, N, ignore_missing, return_missing_as)]\n            )[0]\n        except Exception:\n            return None", "R-C20-b")
+fire("C20", "ccube: pool not closed by with", CC, "            with closing(multiprocessing.pool.ThreadPool(self.poolsize)) as pool:\n                pool.map(fill_one_cube, self.product())", "            pool = multiprocessing.pool.ThreadPool(self.poolsize)\n            pool.map(fill_one_cube, self.product())", "R-C20-c")
+silent("C20", "twin: bind the callback first", CC, "            if self.check_interrupt is not None:\n                self.check_interrupt()\n", "            check = self.check_interrupt\n            if check is not None:\n                check()\n", expect="not-violated")
+silent("C20", "twin: try/finally that re-raises", XC, "            for nested_coords in self.product:\n                fill_one_cube(nested_coords)", "            try:\n                for nested_coords in self.product:\n                    fill_one_cube(nested_coords)\n            except Exception:\n                raise")
